@@ -4,8 +4,15 @@
 // names it mentions) + the (expected, called) counters of the expectations the message lists, then the returned values, the
 // caller's output buffers after every completed actual call and the answers of expectedCallsLeft().
 // Every operation is made on mock() or, after ":s <n>", on the named scope mock("s<n>").  Scenario grammar: see checks/C08.py.
+// ":post" is the end-of-test check of a test that did not fail: on mock() it is the real MockSupportPlugin::postTestAction (its
+// reporter adds the failure to the TestResult and returns; then clear()), and every failure that reaches the TestResult is
+// observed (category + counters, in order); on a named scope the same is done by hand (recording reporter, checkExpectations(),
+// clear()).
 #include "CppUTest/TestHarness.h"
+#include "CppUTest/TestOutput.h"
+#include "CppUTest/TestResult.h"
 #include "CppUTestExt/MockSupport.h"
+#include "CppUTestExt/MockSupportPlugin.h"
 #include "CppUTestExt/MockFailure.h"
 #include "hlib.h"
 #include <deque>
@@ -16,6 +23,21 @@ struct Recorder : MockFailureReporter {
     UtestShell shell; std::string msg; int count = 0;
     Recorder() : shell("verif", "scenario", "scenario.cpp", 1) {}
     void failTest(const MockFailure& f) override { if (count++ == 0) msg = f.getMessage().asCharString(); throw Stop(); }
+    UtestShell* getTestToFail() override { return &shell; }
+};
+
+// receives what MockSupportPlugin's reporter hands to TestResult::addFailure
+struct PostOutput : TestOutput {
+    std::vector<std::string> msgs;
+    void printBuffer(const char*) override {}
+    void flush() override {}
+    void printFailure(const TestFailure& f) override { msgs.push_back(f.getMessage().asCharString()); }
+};
+// a reporter that records and returns, as the plugin's does
+struct Collector : MockFailureReporter {
+    UtestShell& shell; std::vector<std::string> msgs;
+    explicit Collector(UtestShell& s) : shell(s) {}
+    void failTest(const MockFailure& f) override { msgs.push_back(f.getMessage().asCharString()); }
     UtestShell* getTestToFail() override { return &shell; }
 };
 
@@ -168,7 +190,7 @@ int main()
         rec.msg.clear(); rec.count = 0;
         mock().clear();
         mock().setMockFailureStandardReporter(&rec);
-        std::vector<std::string> rets, outs, lefts;
+        std::vector<std::string> rets, outs, lefts, posts;
         long failedAt = -1; long idx = 0;
         curScope = 0;
         try {
@@ -225,6 +247,25 @@ int main()
                 else if (op == ":en") ms.enable();
                 else if (op == ":dis") ms.disable();
                 else if (op == ":left") lefts.push_back(ms.expectedCallsLeft() ? "1" : "0");
+                else if (op == ":post") {
+                    std::vector<std::string> msgs; size_t counted = 0;
+                    if (curScope == 0) {
+                        PostOutput po; TestResult tr(po); MockSupportPlugin plugin;
+                        plugin.postTestAction(rec.shell, tr);
+                        msgs = po.msgs; counted = tr.getFailureCount();
+                    }
+                    else {
+                        Collector col(rec.shell);
+                        mock().setMockFailureStandardReporter(&col);
+                        MockSupport& sc = mock(("s" + hx(curScope)).c_str());
+                        sc.checkExpectations();
+                        sc.clear();
+                        msgs = col.msgs; counted = msgs.size();
+                    }
+                    mock().setMockFailureStandardReporter(&rec);
+                    for (auto& m : msgs) posts.push_back(classify(m));
+                    for (size_t i = msgs.size(); i < counted; i++) posts.push_back(":other 0 0 0 0");   // counted but not printed
+                }
                 else { fprintf(stderr, "bad op %s\n", op.c_str()); exit(3); }
             }
         } catch (Stop&) { failedAt = idx; }
@@ -238,6 +279,8 @@ int main()
         for (auto& r : outs) o << r;
         o << hx(lefts.size());
         for (auto& r : lefts) o << r;
+        o << hx(posts.size());
+        for (auto& r : posts) o << r;
         o.flush();
     }
     return 0;
